@@ -176,7 +176,7 @@ HandleCmt(ks, c, f) ==
     ELSE IF f = "ins" THEN no("err_db")
     ELSE LET eon == EonFor(ks.e2, c.blk)
              i   == InsRows(ks.rows, c, eon, 1, <<>>) IN
-         IF i.ins = <<>> THEN no("err_notnull")                            \* tx_hashes NULL: 23502, the whole statement fails (F3)
+         IF i.ins = <<>> THEN no(IF f = "insc" THEN "err_db" ELSE "err_notnull")   \* tx_hashes NULL: 23502, the whole statement fails (F3)
          ELSE LET ks1 == [ks EXCEPT !.rows = i.rows, !.cms = UpsertCm(ks.cms, c, i.ins)] IN
               IF f = "insc" THEN [ks |-> ks1, res |-> "err_db", trig |-> <<>>]
               ELSE [ks |-> ks1, res |-> "ok", trig |-> <<[blk |-> c.blk, ids |-> TrigIds(c)]>>]
